@@ -107,8 +107,17 @@ def build_program(ctx, blocks, tagp=""):
     steps = []
     info = []
     for bi, (field, encs, term, statics) in enumerate(blocks):
-        for st in statics:
-            steps.append(st)
+        for sj, st in enumerate(statics):
+            if isinstance(st[1], tuple):
+                # ("sym", name, n): a static header whose VALUE is n symbolic bytes (any byte, incl. ':' ' ' '=' '&'); the name is
+                # concrete and free of ": ", so the header is split at the first ": " = right behind the name
+                _, name, n = st[1]
+                val = sym_bytes("%sstatic%d_%d" % (tagp, bi, sj), n)
+                raw = SymBytes(list(name + b": ") + val.cells)
+                ctx.__dict__.setdefault("static_resolved", {})[(bi, sj)] = (name, val)
+                steps.append((st[0], V.unwrap(raw) if is_native() else raw))
+            else:
+                steps.append(st)
         steps.append(("BUILD", field))
         rsteps = []
         for si, name in enumerate(encs):
@@ -151,7 +160,10 @@ def h_client(blocks, L, initial, lens=None, absent=()):
             req0 = c2.HttpRequest(method=b"POST", uri=base_uri, params=dict(base_params), headers=dict(base_headers), body=b"")
         ctx.draws = []
         t = call(c2.HttpDataTransform, steps)
-        req = call(I.getattr(t, "transform"), c2data, req0)
+        kind_t, req = outcome(I.getattr(t, "transform"), c2data, req0)
+        ctx.prove(kind_t == "ok", "a valid program is applied without an exception (%r)" % (req,))
+        if kind_t != "ok":
+            return
         masks = [mask_term(v) for v in getattr(ctx, "draws", [])]
         # ---- (2) wire format: library message == reference message
         exp_headers = dict(base_headers)
@@ -160,8 +172,11 @@ def h_client(blocks, L, initial, lens=None, absent=()):
         exp_uri = list(base_uri)
         mi = 0
         for (field, rsteps, term, tname), blk in zip(info, blocks):
-            for st in blk[3]:
-                k, _, v = st[1].partition(b": " if st[0] != "_PARAMETER" else b"=")
+            for sj, st in enumerate(blk[3]):
+                if isinstance(st[1], tuple):
+                    k, v = ctx.static_resolved[(info.index((field, rsteps, term, tname)), sj)]
+                else:
+                    k, _, v = st[1].partition(b": " if st[0] != "_PARAMETER" else b"=")
                 if st[0] == "_PARAMETER":
                     exp_params[k] = v
                 else:
@@ -339,6 +354,12 @@ def instances(tier):
     for raw in (b"q=a%20b+c", b"flag", b"e=", b"a=1&b=2", b"x=%zz=1"):
         out.append(Instance("client static parameter %r" % raw, h_client([("metadata", ("base64",), "header", [("_PARAMETER", raw)])], 2, "none"),
                             dict(kind="client_static", static=raw.decode())))
+    # static headers with a SYMBOLIC value (3 bytes, any byte value: ": " / ':' / '=' inside the value included): placed under the
+    # name in front of the first ": ", value byte-exact
+    for kind in ("_HEADER", "_HOSTHEADER"):
+        for term in (("print",) if q else ("print", "parameter")):
+            out.append(Instance("client static %s with symbolic value -> %s" % (kind, term), h_client([("metadata", ("base64",), term, [(kind, ("sym", b"X-Trace", 3))])], 2, "none"),
+                                dict(kind="client_static_symbolic", static=kind, value_bytes=3)))
     dseqs = [()]
     DEC = ("append", "prepend", "base64", "base64url", "netbios", "netbiosu", "mask")
     for k in range(1, maxlen + 1):
